@@ -145,6 +145,8 @@ def render_component(f, c, files, ind="  "):
             out.append(f'{ind}    <{x}:{k} value={quoteattr(facet_lexical(v, getattr(c, "lexical_style", "plain")))}/>')
         for e in c.facets.enumeration or []:
             out.append(f'{ind}    <{x}:enumeration value={quoteattr(e)}/>')
+        for k, v in getattr(c.facets, "unchecked", None) or []:
+            out.append(f'{ind}    <{x}:{k} value={quoteattr(v)}/>')
         out.append(f'{ind}  </{x}:restriction>')
         out.append(f'{ind}</{x}:simpleType>')
     elif c.kind == "complex":
